@@ -1,6 +1,7 @@
 (** Proofs about Agent.DiscoveryModel (C20): structure of the tick, completion exactly once, candidates only from matching
     success answers and at most one per item, done items never touched again, and termination within an explicit time bound
-    for every adversary that sends boundedly many alternate-server answers (the unrestricted statement is refuted). *)
+    for EVERY adversary (re-authentications bounded by NICE_DISCOVERY_MAX_AUTH_RETRIES, redirections by NICE_DISCOVERY_MAX_REDIRECTS;
+    without the latter - the code before /repo 1878027 - no bound exists: gathering_time_grows_with_redirect_limit). *)
 From Coq Require Import ZArith List Bool Lia ZifyBool.
 From Nice Require Import Timer.TimerModel Timer.TimerProofs Agent.DiscoveryModel.
 Import ListNotations.
@@ -180,10 +181,13 @@ Proof.
         -- destruct (Hupd it_finish Hfin eq_refl) as (U1 & U2 & U3). repeat split; auto.
       * rewrite Hp. cbn [fst snd ds_items ds_timer ds_gathering]. destruct (Hupd it_finish Hfin eq_refl) as (U1 & U2 & U3). repeat split; auto.
   - (* alternate server *)
+    destruct (d_redir it <? c_maxredir c).
+    2:{ cbn [fst snd ds_items ds_timer ds_gathering]. destruct (Hupd it_finish Hfin eq_refl) as (U1 & U2 & U3). repeat split; auto. }
     destruct (d_type it); cbn [fst snd ds_items ds_timer ds_gathering].
     + assert (Hre : sok (it_redirect alt it)). { split; cbn; intros; [congruence|]. rewrite andb_false_r. reflexivity. }
       destruct (Hupd (it_redirect alt) Hre eq_refl) as (U1 & U2 & U3). repeat split; auto.
-    + destruct (Hupd it_consume Hcon eq_refl) as (U1 & U2 & U3).
+    + assert (Hcr : sok (it_count_redirect it)). { destruct Hit as [H1 H2]. split; cbn; intros; [auto|]. rewrite andb_false_r. reflexivity. }
+      destruct (Hupd it_count_redirect Hcr eq_refl) as (U1 & U2 & U3).
       refine (conj _ (conj _ (conj _ (conj _ (conj _ _))))); auto.
       * rewrite Forall_forall in *. intros y Hy. apply in_map_iff in Hy. destruct Hy as (x & <- & Hx).
         destruct (reset_hit it x) eqn:Eh; [|apply U1; exact Hx].
@@ -420,8 +424,8 @@ Proof.
 Qed.
 
 (* ================================================================== (1) termination: the potential *)
-Ltac simp_it := cbn [r_item r_nd r_paced r_started r_sent TR it_start it_fail it_cancel it_timeout it_rearm it_finish it_consume it_retry it_redirect it_reset mk
-                     d_type d_grp d_srv d_done d_pending d_buf d_tid d_live d_realm d_resp_realm d_timer d_auth d_next negb].
+Ltac simp_it := cbn [r_item r_nd r_paced r_started r_sent TR it_start it_fail it_cancel it_timeout it_rearm it_finish it_consume it_retry it_redirect it_count_redirect it_reset mk
+                     d_type d_grp d_srv d_done d_pending d_buf d_tid d_live d_realm d_resp_realm d_timer d_auth d_next d_redir negb].
 
 (** microseconds: the wait that runs while [retrans = k] *)
 Definition Wk (c : dcfg) (k : Z) : Z := wait (c_T c) (c_N c) k * 1000.
@@ -434,12 +438,11 @@ Definition TX (c : dcfg) (G : Z) : Z := Srem c G 0.
 (** one (re)start of an item: a tick to send the request, then a whole transaction *)
 Definition round (c : dcfg) (G : Z) : Z := G + TX c G.
 
-Definition phi (c : dcfg) (G now : Z) (it : item) : Z :=
+Definition phi0 (c : dcfg) (G now : Z) (it : item) : Z :=
   if d_done it then 0
   else if negb (d_pending it) then round c G + (c_maxauth c - d_auth it) * round c G
   else Z.max 0 (us (deadline (d_timer it)) + 1000 - now) + G + Srem c G (retrans (d_timer it)) + (c_maxauth c - d_auth it) * round c G.
 
-Fixpoint Phi (c : dcfg) (G now : Z) (l : list item) : Z := match l with [] => 0 | it :: r => phi c G now it + Phi c G now r end.
 
 Definition inv_item (c : dcfg) (clk : Z) (it : item) : Prop :=
   sok it /\ 0 <= d_auth it <= c_maxauth c /\
@@ -467,23 +470,20 @@ Qed.
 Lemma round_nonneg c G : params_ok (c_T c) (c_N c) -> 0 <= G -> 0 <= TX c G /\ 0 <= round c G.
 Proof. intros HP HG. pose proof (Srem_nonneg c G 0 HP HG ltac:(lia)). unfold round, TX. lia. Qed.
 
-Lemma phi_nonneg c G now it clk : params_ok (c_T c) (c_N c) -> 0 <= G -> inv_item c clk it -> 0 <= phi c G now it.
+Lemma phi0_nonneg c G now it clk : params_ok (c_T c) (c_N c) -> 0 <= G -> inv_item c clk it -> 0 <= phi0 c G now it.
 Proof.
-  intros HP HG (Hs & Ha & Ht). destruct (round_nonneg c G HP HG) as [R1 R2]. unfold phi.
+  intros HP HG (Hs & Ha & Ht). destruct (round_nonneg c G HP HG) as [R1 R2]. unfold phi0.
   assert (0 <= (c_maxauth c - d_auth it) * round c G) by nia.
   destruct (d_done it) eqn:Ed; [lia|]. destruct (d_pending it) eqn:Ep; cbn [negb]; [|lia].
   destruct (Ht eq_refl eq_refl) as (_ & last & HI & _). destruct HI as [_ Hr _ _ _].
   pose proof (Srem_nonneg c G (retrans (d_timer it)) HP HG ltac:(lia)). lia.
 Qed.
 
-Lemma phi_mono c G clk now it : clk <= now -> phi c G now it <= phi c G clk it.
+Lemma phi0_mono c G clk now it : clk <= now -> phi0 c G now it <= phi0 c G clk it.
 Proof.
-  intros H. unfold phi. destruct (d_done it); [lia|]. destruct (negb (d_pending it)); [lia|].
+  intros H. unfold phi0. destruct (d_done it); [lia|]. destruct (negb (d_pending it)); [lia|].
   generalize ((c_maxauth c - d_auth it) * round c G) (Srem c G (retrans (d_timer it))) (us (deadline (d_timer it))). intros; lia.
 Qed.
-
-Lemma Phi_mono c G clk now l : clk <= now -> Phi c G now l <= Phi c G clk l.
-Proof. intros H. induction l as [|it r IH]; cbn [Phi]; [lia|]. pose proof (phi_mono c G clk now it H). lia. Qed.
 
 Lemma inv_item_mono c clk now it : clk <= now -> inv_item c clk it -> inv_item c now it.
 Proof.
@@ -517,17 +517,17 @@ Qed.
 
 (** the effect of the tick on one item, measured by the potential: never up; down by a tick period when it transmits;
     down by the time elapsed when it is found waiting *)
-Lemma tick_item_phi c G clk now ok tid it :
+Lemma tick_item_phi0 c G clk now ok tid it :
   params_ok (c_T c) (c_N c) -> 0 <= G -> inv_item c clk it -> wf_now now -> clk <= us now ->
   let res := tick_item c now ok tid it in
   inv_item c (us now) (r_item res) /\
-  phi c G (us now) (r_item res) <= phi c G clk it /\
-  (r_paced res = true -> phi c G (us now) (r_item res) + G <= phi c G clk it) /\
-  (r_paced res = false -> r_nd res = 1 -> phi c G (us now) (r_item res) + (us now - clk) <= phi c G clk it).
+  phi0 c G (us now) (r_item res) <= phi0 c G clk it /\
+  (r_paced res = true -> phi0 c G (us now) (r_item res) + G <= phi0 c G clk it) /\
+  (r_paced res = false -> r_nd res = 1 -> phi0 c G (us now) (r_item res) + (us now - clk) <= phi0 c G clk it).
 Proof.
   intros HP HG Hinv Hn Hclk. cbn zeta.
-  pose proof (phi_nonneg c G clk it clk HP HG Hinv) as Hnn.
-  pose proof (phi_mono c G clk (us now) it Hclk) as Hmono.
+  pose proof (phi0_nonneg c G clk it clk HP HG Hinv) as Hnn.
+  pose proof (phi0_mono c G clk (us now) it Hclk) as Hmono.
   pose proof (inv_item_mono c clk (us now) it Hclk Hinv) as Hinv'.
   destruct Hinv as (Hs & Ha & Ht).
   destruct (round_nonneg c G HP HG) as [R1 R2].
@@ -541,13 +541,13 @@ Proof.
     assert (HS : Srem c G 0 = (Wk c 1 + 1000 + G) + Srem c G 1). { apply (Srem_step c G 0). unfold nmax. lia. }
     split; [|split; [|split]].
     + split; [exact Hs'|]. split; [simp_it; exact Ha|]. simp_it. intros _ _. split; [reflexivity|]. exists (us now). split; [exact SI|]. split; [lia|]. unfold mono, us in *. lia.
-    + unfold phi. simp_it. rewrite Hd, A. cbn [negb]. rewrite Sr, Sd. unfold round, TX. unfold Wk in HS. lia.
-    + intros _. unfold phi. simp_it. rewrite Hd, A. cbn [negb]. rewrite Sr, Sd. unfold round, TX. unfold Wk in HS. lia.
+    + unfold phi0. simp_it. rewrite Hd, A. cbn [negb]. rewrite Sr, Sd. unfold round, TX. unfold Wk in HS. lia.
+    + intros _. unfold phi0. simp_it. rewrite Hd, A. cbn [negb]. rewrite Sr, Sd. unfold round, TX. unfold Wk in HS. lia.
     + intros; discriminate.
   - (* could not be started: done *)
     split; [|split; [|split]].
     + split; [exact Hs'|]. split; [simp_it; exact Ha|]. simp_it. intros; discriminate.
-    + unfold phi at 1. simp_it. lia.
+    + unfold phi0 at 1. simp_it. lia.
     + intros; discriminate.
     + intros _ H; discriminate.
   - (* already done *)
@@ -557,11 +557,11 @@ Proof.
   - (* not due yet *)
     destruct (Ht B A) as (_ & last & HI & Hl & Hnx).
     split; [exact Hinv'|]. split; [exact Hmono|]. split; [intros; discriminate|]. intros _ _.
-    unfold phi. rewrite B, A. cbn [negb]. unfold mono, us in *. lia.
+    unfold phi0. rewrite B, A. cbn [negb]. unfold mono, us in *. lia.
   - (* TIMEOUT *)
     split; [|split; [|split]].
     + split; [exact Hs'|]. split; [simp_it; exact Ha|]. simp_it. intros; discriminate.
-    + unfold phi at 1. simp_it. lia.
+    + unfold phi0 at 1. simp_it. lia.
     + intros; discriminate.
     + intros _ H; discriminate.
   - (* RETRANSMIT *)
@@ -575,8 +575,8 @@ Proof.
     pose proof (next_ok (c_T c) (c_N c) t' (us now) now HP HI' Hn ltac:(lia) ltac:(lia)) as Hnx'.
     split; [|split; [|split]].
     + split; [exact Hs'|]. split; [simp_it; exact Ha|]. simp_it. intros _ _. split; [exact C|]. exists (us now). split; [exact HI'|]. split; [lia|]. unfold mono, us in *. lia.
-    + unfold phi. simp_it. rewrite B, A. cbn [negb]. rewrite Hk. unfold Wk in HS. rewrite Hk in Hd', Hwb. lia.
-    + intros _. unfold phi. simp_it. rewrite B, A. cbn [negb]. rewrite Hk. unfold Wk in HS. rewrite Hk in Hd', Hwb. lia.
+    + unfold phi0. simp_it. rewrite B, A. cbn [negb]. rewrite Hk. unfold Wk in HS. rewrite Hk in Hd', Hwb. lia.
+    + intros _. unfold phi0. simp_it. rewrite B, A. cbn [negb]. rewrite Hk. unfold Wk in HS. rewrite Hk in Hd', Hwb. lia.
     + intros; discriminate.
   - (* SUCCESS: still waiting *)
     destruct (Ht B A) as (_ & last & HI & Hl & Hnx).
@@ -585,9 +585,61 @@ Proof.
     pose proof (next_ok (c_T c) (c_N c) (d_timer it) last now HP HI Hn ltac:(lia) ltac:(lia)) as Hnx'.
     split; [|split; [|split]].
     + split; [exact Hs'|]. split; [simp_it; exact Ha|]. simp_it. intros _ _. split; [exact C|]. exists last. split; [exact HI|]. split; [lia|]. unfold mono, us in *. lia.
-    + unfold phi. simp_it. rewrite B, A. cbn [negb]. lia.
+    + unfold phi0. simp_it. rewrite B, A. cbn [negb]. lia.
     + intros; discriminate.
-    + intros _ _. unfold phi. simp_it. rewrite B, A. cbn [negb]. lia.
+    + intros _ _. unfold phi0. simp_it. rewrite B, A. cbn [negb]. lia.
+Qed.
+
+(** the potential of an item: what its own transactions can still cost ([phi0]) plus, for every alternate-server answer it may still
+    follow, a whole transaction for each of the [nn] items of the list (following one re-queues the item and, for a TURN allocation,
+    its siblings of the same server: none of them is charged on its own counter) *)
+Definition rterm (c : dcfg) (G nn : Z) (it : item) : Z := (c_maxredir c - d_redir it) * (nn * TX c G).
+Definition phi (c : dcfg) (G nn now : Z) (it : item) : Z := if d_done it then 0 else rterm c G nn it + phi0 c G now it.
+Fixpoint Phi (c : dcfg) (G nn now : Z) (l : list item) : Z := match l with [] => 0 | it :: r => phi c G nn now it + Phi c G nn now r end.
+Definition inv2 (c : dcfg) (clk : Z) (it : item) : Prop := inv_item c clk it /\ 0 <= d_redir it <= c_maxredir c.
+
+Lemma rterm_nonneg c G nn it : params_ok (c_T c) (c_N c) -> 0 <= G -> 0 <= nn -> 0 <= d_redir it <= c_maxredir c -> 0 <= rterm c G nn it.
+Proof. intros HP HG Hn Hr. destruct (round_nonneg c G HP HG) as [R1 _]. unfold rterm. apply Z.mul_nonneg_nonneg; [lia|apply Z.mul_nonneg_nonneg; lia]. Qed.
+
+Lemma phi_nonneg c G nn now it clk : params_ok (c_T c) (c_N c) -> 0 <= G -> 0 <= nn -> inv2 c clk it -> 0 <= phi c G nn now it.
+Proof.
+  intros HP HG Hn (Hi & Hr). unfold phi. destruct (d_done it); [lia|]. pose proof (phi0_nonneg c G now it clk HP HG Hi). pose proof (rterm_nonneg c G nn it HP HG Hn Hr). lia.
+Qed.
+
+Lemma phi_mono c G nn clk now it : clk <= now -> phi c G nn now it <= phi c G nn clk it.
+Proof. intros H. unfold phi. destruct (d_done it); [lia|]. pose proof (phi0_mono c G clk now it H). lia. Qed.
+
+Lemma Phi_mono c G nn clk now l : clk <= now -> Phi c G nn now l <= Phi c G nn clk l.
+Proof. intros H. induction l as [|it r IH]; cbn [Phi]; [lia|]. pose proof (phi_mono c G nn clk now it H). lia. Qed.
+
+Lemma inv2_mono c clk now it : clk <= now -> inv2 c clk it -> inv2 c now it.
+Proof. intros H (A & B). split; [eapply inv_item_mono; eauto|exact B]. Qed.
+
+Lemma tick_item_redir c now ok tid it : d_redir (r_item (tick_item c now ok tid it)) = d_redir it.
+Proof.
+  destruct (tick_item_cases c now ok tid it) as [(A&B&->)|[(A&B&->)|[(A&B&->)|[(A&B&C&->)|[(A&B&C&D&->)|[(A&B&C&D&E&->)|[(A&B&C&D&E&->)|(A&B&C&D&E&->)]]]]]]]; reflexivity.
+Qed.
+
+Lemma tick_item_phi c G nn clk now ok tid it :
+  params_ok (c_T c) (c_N c) -> 0 <= G -> 0 <= nn -> inv2 c clk it -> wf_now now -> clk <= us now ->
+  let res := tick_item c now ok tid it in
+  inv2 c (us now) (r_item res) /\
+  phi c G nn (us now) (r_item res) <= phi c G nn clk it /\
+  (r_paced res = true -> phi c G nn (us now) (r_item res) + G <= phi c G nn clk it) /\
+  (r_paced res = false -> r_nd res = 1 -> phi c G nn (us now) (r_item res) + (us now - clk) <= phi c G nn clk it).
+Proof.
+  intros HP HG Hn (Hi & Hr) Hw Hclk. cbn zeta.
+  destruct (tick_item_phi0 c G clk now ok tid it HP HG Hi Hw Hclk) as (P1 & P2 & P3 & P4). cbn zeta in *.
+  pose proof (tick_item_redir c now ok tid it) as Hrd. pose proof (tick_item_nd c now ok tid it) as (_ & _ & _ & N4). cbn zeta in N4.
+  pose proof (rterm_nonneg c G nn it HP HG Hn Hr) as RN. pose proof (phi0_nonneg c G clk it clk HP HG Hi) as NN.
+  set (res := tick_item c now ok tid it) in *.
+  assert (Hrt : rterm c G nn (r_item res) = rterm c G nn it) by (unfold rterm; rewrite Hrd; reflexivity).
+  split; [split; [exact P1|rewrite Hrd; exact Hr]|].
+  unfold phi. rewrite Hrt. destruct (d_done it) eqn:Ed.
+  - rewrite (N4 eq_refl). unfold phi0 in P2, P3, P4. rewrite Ed, (N4 eq_refl) in P2, P3, P4. repeat split; intros; auto.
+  - destruct (d_done (r_item res)) eqn:Ed'.
+    + unfold phi0 at 1 in P2. unfold phi0 at 1 in P3. unfold phi0 at 1 in P4. rewrite Ed' in P2, P3, P4. repeat split; intros; [lia|specialize (P3 H); lia|specialize (P4 H H0); lia].
+    + repeat split; intros; [lia|specialize (P3 H); lia|specialize (P4 H H0); lia].
 Qed.
 
 Lemma tick_loop_nd_nonneg_aux c now fails : forall l idx nid l' nd st o, tick_loop c now fails idx nid l = (l', nd, st, o) -> 0 <= nd.
@@ -602,21 +654,21 @@ Qed.
 
 (** the whole loop: the potential never goes up, and when the tick returns TRUE (not_done > 0) it went down by at least the time
     elapsed since the previous tick (which is at most one tick period G) *)
-Lemma tick_loop_phi c G clk now fails :
-  params_ok (c_T c) (c_N c) -> 0 <= G -> wf_now now -> clk <= us now -> us now - clk <= G ->
-  forall l idx nid l' nd st o, Forall (inv_item c clk) l -> tick_loop c now fails idx nid l = (l', nd, st, o) ->
-  Forall (inv_item c (us now)) l' /\ Phi c G (us now) l' <= Phi c G clk l /\ (0 < nd -> Phi c G (us now) l' + (us now - clk) <= Phi c G clk l).
+Lemma tick_loop_phi c G nn clk now fails :
+  params_ok (c_T c) (c_N c) -> 0 <= G -> 0 <= nn -> wf_now now -> clk <= us now -> us now - clk <= G ->
+  forall l idx nid l' nd st o, Forall (inv2 c clk) l -> tick_loop c now fails idx nid l = (l', nd, st, o) ->
+  Forall (inv2 c (us now)) l' /\ Phi c G nn (us now) l' <= Phi c G nn clk l /\ (0 < nd -> Phi c G nn (us now) l' + (us now - clk) <= Phi c G nn clk l).
 Proof.
-  intros HP HG Hn Hclk Hgap. induction l as [|it r IH]; intros idx nid l' nd st o Hl H; cbn [tick_loop] in H.
+  intros HP HG Hnn Hn Hclk Hgap. induction l as [|it r IH]; intros idx nid l' nd st o Hl H; cbn [tick_loop] in H.
   - injection H as <- <- <- <-. cbn [Phi]. repeat split; auto; lia.
   - inversion Hl as [|? ? Hit Hr]; subst.
-    pose proof (tick_item_phi c G clk now (negb (existsb (Nat.eqb idx) fails)) (nid + Z.of_nat idx) it HP HG Hit Hn Hclk) as (P1 & P2 & P3 & P4). cbn zeta in *.
+    pose proof (tick_item_phi c G nn clk now (negb (existsb (Nat.eqb idx) fails)) (nid + Z.of_nat idx) it HP HG Hnn Hit Hn Hclk) as (P1 & P2 & P3 & P4). cbn zeta in *.
     pose proof (tick_item_nd c now (negb (existsb (Nat.eqb idx) fails)) (nid + Z.of_nat idx) it) as (N1 & N2 & _ & _). cbn zeta in *.
     set (res := tick_item c now (negb (existsb (Nat.eqb idx) fails)) (nid + Z.of_nat idx) it) in *.
     destruct (r_paced res) eqn:Ep.
-    + injection H as <- <- <- <-. specialize (P3 eq_refl). pose proof (Phi_mono c G clk (us now) r Hclk) as M.
+    + injection H as <- <- <- <-. specialize (P3 eq_refl). pose proof (Phi_mono c G nn clk (us now) r Hclk) as M.
       split; [|split].
-      * constructor; [exact P1|]. rewrite Forall_forall in *. intros x Hx. apply (inv_item_mono c clk); auto.
+      * constructor; [exact P1|]. rewrite Forall_forall in *. intros x Hx. apply (inv2_mono c clk); auto.
       * cbn [Phi]. lia.
       * intros _. cbn [Phi]. lia.
     + destruct (tick_loop c now fails (S idx) nid r) as [[[r' nd'] st'] o'] eqn:El.
@@ -631,94 +683,102 @@ Proof.
 Qed.
 
 (* ------------------------------------------------------------------ answers and the potential *)
-Definition is_alt (k : kind) : bool := match k with KAlternate _ => true | _ => false end.
-
-Lemma Phi_upd c G now f : forall l i it, nth_error l i = Some it -> Phi c G now (upd_nth i f l) = Phi c G now l - phi c G now it + phi c G now (f it).
+Lemma Phi_upd c G nn now f : forall l i it, nth_error l i = Some it ->
+  Phi c G nn now (upd_nth i f l) = Phi c G nn now l - phi c G nn now it + phi c G nn now (f it).
 Proof.
   induction l as [|y r IH]; intros [|i] it H; cbn in H; try discriminate.
   - injection H as <-. cbn [upd_nth Phi]. lia.
   - cbn [upd_nth Phi]. rewrite (IH i it H). lia.
 Qed.
 
-Lemma phi_active_lb c G clk it : params_ok (c_T c) (c_N c) -> 0 <= G -> inv_item c clk it -> d_done it = false -> d_pending it = true ->
-  G + (c_maxauth c - d_auth it) * round c G <= phi c G clk it.
+Lemma phi0_active_lb c G clk it : params_ok (c_T c) (c_N c) -> 0 <= G -> inv_item c clk it -> d_done it = false -> d_pending it = true ->
+  G + (c_maxauth c - d_auth it) * round c G <= phi0 c G clk it.
 Proof.
   intros HP HG (Hs & Ha & Ht) Hd Hp. destruct (Ht Hd Hp) as (_ & last & HI & _). destruct HI as [_ Hr _ _ _].
-  pose proof (Srem_nonneg c G (retrans (d_timer it)) HP HG ltac:(lia)). unfold phi. rewrite Hd, Hp. cbn [negb]. lia.
+  pose proof (Srem_nonneg c G (retrans (d_timer it)) HP HG ltac:(lia)). unfold phi0. rewrite Hd, Hp. cbn [negb]. lia.
 Qed.
 
-Lemma phi_restart c G clk it : d_done it = false -> d_pending it = false -> phi c G clk it = round c G + (c_maxauth c - d_auth it) * round c G.
-Proof. intros Hd Hp. unfold phi. rewrite Hd, Hp. reflexivity. Qed.
+Lemma phi0_restart c G clk it : d_done it = false -> d_pending it = false -> phi0 c G clk it = round c G + (c_maxauth c - d_auth it) * round c G.
+Proof. intros Hd Hp. unfold phi0. rewrite Hd, Hp. reflexivity. Qed.
 
-Lemma Phi_map c G clk (g : item -> item) B : 0 <= B -> forall l, (forall x, In x l -> phi c G clk (g x) <= phi c G clk x + B) ->
-  Phi c G clk (map g l) <= Phi c G clk l + Z.of_nat (length l) * B.
+Lemma Phi_map c G nn clk (g : item -> item) B : 0 <= B -> forall l, (forall x, In x l -> phi c G nn clk (g x) <= phi c G nn clk x + B) ->
+  Phi c G nn clk (map g l) <= Phi c G nn clk l + Z.of_nat (length l) * B.
 Proof.
   intros HB. induction l as [|x r IH]; intros H; cbn [map Phi length]; [lia|].
   pose proof (H x (or_introl eq_refl)). specialize (IH (fun y Hy => H y (or_intror Hy))). lia.
 Qed.
 
-Lemma answer_phi c G clk i t k s : params_ok (c_T c) (c_N c) -> 0 <= G -> Forall (inv_item c clk) (ds_items s) ->
+(** NO answer, of any kind, raises the potential: an alternate-server answer that is followed costs the item one of its redirections,
+    which pays for re-queueing every item of the list *)
+Lemma answer_phi c G nn clk i t k s : params_ok (c_T c) (c_N c) -> 0 <= G -> Z.of_nat (length (ds_items s)) <= nn -> Forall (inv2 c clk) (ds_items s) ->
   let s' := fst (answer c i t k s) in
-  Forall (inv_item c clk) (ds_items s') /\
-  Phi c G clk (ds_items s') <= Phi c G clk (ds_items s) + (if is_alt k then Z.of_nat (length (ds_items s)) * TX c G else 0).
+  Forall (inv2 c clk) (ds_items s') /\ Phi c G nn clk (ds_items s') <= Phi c G nn clk (ds_items s).
 Proof.
-  intros HP HG Hl. cbn zeta. destruct (round_nonneg c G HP HG) as [R1 R2].
-  assert (Hz : forall (b : bool), 0 <= (if b then Z.of_nat (length (ds_items s)) * TX c G else 0)) by (intros []; nia).
+  intros HP HG Hlen Hl. cbn zeta. destruct (round_nonneg c G HP HG) as [R1 R2].
   unfold answer.
-  destruct (nth_error (ds_items s) i) as [it|] eqn:En; cbn [fst]; [|split; [exact Hl|specialize (Hz (is_alt k)); lia]].
-  destruct (accepts it t) eqn:Ea; cbn [fst]; [|split; [exact Hl|specialize (Hz (is_alt k)); lia]].
-  assert (Hit : inv_item c clk it). { rewrite Forall_forall in Hl. apply Hl. eapply nth_error_In; eauto. }
-  pose proof Hit as (Hs & Hau & Ht).
+  destruct (nth_error (ds_items s) i) as [it|] eqn:En; cbn [fst]; [|split; [exact Hl|lia]].
+  destruct (accepts it t) eqn:Ea; cbn [fst]; [|split; [exact Hl|lia]].
+  assert (Hn1 : 1 <= nn). { destruct (ds_items s); [destruct i; discriminate|cbn [length] in Hlen; lia]. }
+  assert (Hit : inv2 c clk it). { rewrite Forall_forall in Hl. apply Hl. eapply nth_error_In; eauto. }
+  pose proof Hit as (Hi0 & Hrd). pose proof Hi0 as (Hs & Hau & Ht).
   destruct (accepts_active it t Hs Ea) as (Hd & Hp & Hb & Hlv & Htid).
-  pose proof (phi_active_lb c G clk it HP HG Hit Hd Hp) as LB.
-  pose proof (phi_nonneg c G clk it clk HP HG Hit) as NN.
+  pose proof (phi0_active_lb c G clk it HP HG Hi0 Hd Hp) as LB.
+  pose proof (phi_nonneg c G nn clk it clk HP HG ltac:(lia) Hit) as NN.
+  pose proof (rterm_nonneg c G nn it HP HG ltac:(lia) Hrd) as RN.
   assert (HX : 0 <= (c_maxauth c - d_auth it) * round c G) by nia.
-  (* the four ways the answered item can change *)
-  assert (Ffin : inv_item c clk (it_finish it) /\ phi c G clk (it_finish it) = 0).
-  { split; [|reflexivity]. split; [split; cbn; intros; [auto|congruence]|]. split; [exact Hau|]. cbn. intros; discriminate. }
-  assert (Fcon : inv_item c clk (it_consume it) /\ phi c G clk (it_consume it) = phi c G clk it).
-  { split; [|reflexivity]. destruct Hs as [S1 S2]. split; [split; cbn; intros; [auto|rewrite andb_false_r; reflexivity]|]. split; [exact Hau|]. exact Ht. }
-  assert (Fupd : forall f B, inv_item c clk (f it) -> phi c G clk (f it) <= phi c G clk it + B ->
-            Forall (inv_item c clk) (upd_nth i f (ds_items s)) /\ Phi c G clk (upd_nth i f (ds_items s)) <= Phi c G clk (ds_items s) + B).
+  assert (Hphi : phi c G nn clk it = rterm c G nn it + phi0 c G clk it) by (unfold phi; rewrite Hd; reflexivity).
+  assert (Ffin : inv2 c clk (it_finish it) /\ phi c G nn clk (it_finish it) = 0).
+  { split; [|reflexivity]. split; [|exact Hrd]. split; [split; cbn; intros; [auto|congruence]|]. split; [exact Hau|]. cbn. intros; discriminate. }
+  assert (Fcon : inv2 c clk (it_consume it) /\ phi c G nn clk (it_consume it) = phi c G nn clk it).
+  { split; [|reflexivity]. split; [|exact Hrd]. destruct Hs as [S1 S2]. split; [split; cbn; intros; [auto|rewrite andb_false_r; reflexivity]|]. split; [exact Hau|]. exact Ht. }
+  assert (Fupd : forall f B, inv2 c clk (f it) -> phi c G nn clk (f it) <= phi c G nn clk it + B ->
+            Forall (inv2 c clk) (upd_nth i f (ds_items s)) /\ Phi c G nn clk (upd_nth i f (ds_items s)) <= Phi c G nn clk (ds_items s) + B).
   { intros f B Hf Hph. split.
     - apply upd_nth_Forall; auto. intros x Hx. rewrite En in Hx. injection Hx as <-. exact Hf.
-    - rewrite (Phi_upd c G clk f _ i it En). lia. }
+    - rewrite (Phi_upd c G nn clk f _ i it En). lia. }
+  assert (F0 : forall f, inv2 c clk (f it) -> phi c G nn clk (f it) <= phi c G nn clk it ->
+            Forall (inv2 c clk) (upd_nth i f (ds_items s)) /\ Phi c G nn clk (upd_nth i f (ds_items s)) <= Phi c G nn clk (ds_items s)).
+  { intros f Hf Hph. destruct (Fupd f 0 Hf ltac:(lia)) as [U1 U2]. split; [exact U1|lia]. }
   destruct Ffin as [Ff1 Ff2]. destruct Fcon as [Fc1 Fc2].
-  destruct k as [|code realm|alt|]; cbn [is_alt].
-  - cbn [fst ds_items]. apply Fupd; [exact Ff1|lia].
+  destruct k as [|code realm|alt|].
+  - cbn [fst ds_items]. apply F0; [exact Ff1|lia].
   - destruct (d_type it).
-    + cbn [fst ds_items]. apply Fupd; [exact Ff1|lia].
+    + cbn [fst ds_items]. apply F0; [exact Ff1|lia].
     + destruct (negb (realm =? 0)).
-      * destruct (auth_retry c it code realm) eqn:Ear; cbn [fst ds_items]; [|apply Fupd; [exact Ff1|lia]].
+      * destruct (auth_retry c it code realm) eqn:Ear; cbn [fst ds_items]; [|apply F0; [exact Ff1|lia]].
         assert (Hlt : d_auth it < c_maxauth c). { unfold auth_retry in Ear. apply andb_prop in Ear. destruct Ear as [_ E]. lia. }
-        apply Fupd.
-        -- split; [split; cbn; intros; [congruence|rewrite andb_false_r; reflexivity]|]. split; [cbn; lia|]. cbn. intros; discriminate.
-        -- unfold phi at 1. simp_it. rewrite Hd. lia.
-      * rewrite Hp. cbn [fst ds_items]. apply Fupd; [exact Ff1|lia].
-  - destruct (d_type it); cbn [fst ds_items].
-    + assert (Z.of_nat (length (ds_items s)) * TX c G >= TX c G).
-      { assert (1 <= Z.of_nat (length (ds_items s))). { destruct (ds_items s); [destruct i; discriminate|cbn [length]; lia]. } nia. }
-      destruct (Fupd (it_redirect alt) (TX c G)) as [U1 U2].
-      * split; [split; cbn; intros; [congruence|rewrite andb_false_r; reflexivity]|]. split; [exact Hau|]. cbn. intros; discriminate.
-      * unfold phi at 1. simp_it. rewrite Hd. unfold round in *. lia.
-      * split; [exact U1|lia].
-    + destruct (Fupd it_consume 0 Fc1 ltac:(lia)) as [U1 U2].
-      set (l1 := upd_nth i it_consume (ds_items s)) in *.
-      assert (Hlen : length l1 = length (ds_items s)) by apply upd_nth_length.
-      set (g := fun x => if reset_hit it x then it_reset alt x else x).
-      assert (Hg : forall x, In x l1 -> inv_item c clk (g x) /\ phi c G clk (g x) <= phi c G clk x + TX c G).
-      { intros x Hx. rewrite Forall_forall in U1. specialize (U1 x Hx). unfold g. destruct (reset_hit it x) eqn:Eh; [|split; [exact U1|lia]].
-        unfold reset_hit in Eh. apply andb_prop in Eh. destruct Eh as [Eh _]. apply andb_prop in Eh. destruct Eh as [Eh _]. apply andb_prop in Eh. destruct Eh as [Eh _].
-        assert (Hdx : d_done x = false) by (destruct (d_done x); [discriminate|reflexivity]).
-        pose proof U1 as Ux. destruct U1 as (Sx & Ax & Tx). split.
-        - split; [split; cbn; intros; [congruence|reflexivity]|]. split; [exact Ax|]. cbn. intros; discriminate.
-        - unfold phi at 1. simp_it. rewrite Hdx. destruct (d_pending x) eqn:Epx.
-          + pose proof (phi_active_lb c G clk x HP HG Ux Hdx Epx). unfold round in *. lia.
-          + rewrite (phi_restart c G clk x Hdx Epx). lia. }
-      split.
-      * rewrite Forall_forall. intros y Hy. apply in_map_iff in Hy. destruct Hy as (x & <- & Hx). apply Hg; exact Hx.
-      * pose proof (Phi_map c G clk g (TX c G) R1 l1 (fun x Hx => proj2 (Hg x Hx))). rewrite Hlen in H. lia.
-  - cbn [fst ds_items]. apply Fupd; [exact Fc1|lia].
+        apply F0.
+        -- split; [|exact Hrd]. split; [split; cbn; intros; [congruence|rewrite andb_false_r; reflexivity]|]. split; [cbn; lia|]. cbn. intros; discriminate.
+        -- rewrite Hphi. unfold phi. simp_it. rewrite Hd. change (rterm c G nn (it_retry realm it)) with (rterm c G nn it). unfold phi0 at 1. simp_it. rewrite Hd. lia.
+      * rewrite Hp. cbn [fst ds_items]. apply F0; [exact Ff1|lia].
+  - destruct (d_redir it <? c_maxredir c) eqn:Erd; [|cbn [fst ds_items]; apply F0; [exact Ff1|lia]].
+    assert (Hnt : 0 <= (nn - 1) * TX c G) by (apply Z.mul_nonneg_nonneg; lia).
+    assert (Hrt' : (c_maxredir c - (d_redir it + 1)) * (nn * TX c G) = rterm c G nn it - nn * TX c G) by (unfold rterm; lia).
+    destruct (d_type it); cbn [fst ds_items].
+    + apply F0.
+      * split; [|cbn; lia]. split; [split; cbn; intros; [congruence|rewrite andb_false_r; reflexivity]|]. split; [exact Hau|]. cbn. intros; discriminate.
+      * rewrite Hphi. unfold phi. simp_it. rewrite Hd. unfold rterm at 1. simp_it. rewrite Hrt'. unfold phi0 at 1. simp_it. rewrite Hd. unfold round in *. lia.
+    + destruct (Fupd it_count_redirect (- (nn * TX c G))) as [U1 U2].
+      * split; [|cbn; lia]. destruct Hs as [S1 S2]. split; [split; cbn; intros; [auto|rewrite andb_false_r; reflexivity]|]. split; [exact Hau|]. exact Ht.
+      * rewrite Hphi. unfold phi. simp_it. rewrite Hd. unfold rterm at 1. simp_it. rewrite Hrt'. change (phi0 c G clk (it_count_redirect it)) with (phi0 c G clk it). lia.
+      * set (l1 := upd_nth i it_count_redirect (ds_items s)) in *.
+        assert (Hl1 : length l1 = length (ds_items s)) by apply upd_nth_length.
+        set (g := fun x => if reset_hit it x then it_reset alt x else x).
+        assert (Hg : forall x, In x l1 -> inv2 c clk (g x) /\ phi c G nn clk (g x) <= phi c G nn clk x + TX c G).
+        { intros x Hx. rewrite Forall_forall in U1. specialize (U1 x Hx). unfold g. destruct (reset_hit it x) eqn:Eh; [|split; [exact U1|lia]].
+          unfold reset_hit in Eh. apply andb_prop in Eh. destruct Eh as [Eh _]. apply andb_prop in Eh. destruct Eh as [Eh _]. apply andb_prop in Eh. destruct Eh as [Eh _].
+          assert (Hdx : d_done x = false) by (destruct (d_done x); [discriminate|reflexivity]).
+          pose proof U1 as (Ux & Rx). pose proof Ux as (Sx & Ax & Tx). split.
+          - split; [|exact Rx]. split; [split; cbn; intros; [congruence|reflexivity]|]. split; [exact Ax|]. cbn. intros; discriminate.
+          - unfold phi. simp_it. rewrite Hdx. change (rterm c G nn (it_reset alt x)) with (rterm c G nn x). unfold phi0 at 1. simp_it. rewrite Hdx.
+            destruct (d_pending x) eqn:Epx.
+            + pose proof (phi0_active_lb c G clk x HP HG Ux Hdx Epx). unfold round in *. lia.
+            + rewrite (phi0_restart c G clk x Hdx Epx). lia. }
+        split.
+        -- rewrite Forall_forall. intros y Hy. apply in_map_iff in Hy. destruct Hy as (x & <- & Hx). apply Hg; exact Hx.
+        -- pose proof (Phi_map c G nn clk g (TX c G) R1 l1 (fun x Hx => proj2 (Hg x Hx))) as HM. rewrite Hl1 in HM.
+           assert (0 <= (nn - Z.of_nat (length (ds_items s))) * TX c G) by (apply Z.mul_nonneg_nonneg; lia). lia.
+  - cbn [fst ds_items]. apply F0; [exact Fc1|lia].
 Qed.
 
 (* ------------------------------------------------------------------ driven runs *)
@@ -749,36 +809,33 @@ Proof.
   - cbn [step]. unfold answer. rewrite C1. destruct i; cbn [nth_error fst]; apply (IH s clk); try (repeat split; auto); exact Hd.
 Qed.
 
-Lemma inv_sok c clk l : Forall (inv_item c clk) l -> Forall sok l.
-Proof. apply Forall_impl. intros x (H & _). exact H. Qed.
+Lemma inv_sok c clk l : Forall (inv2 c clk) l -> Forall sok l.
+Proof. apply Forall_impl. intros x ((H & _) & _). exact H. Qed.
 
-Lemma Phi_nonneg c G now clk l : params_ok (c_T c) (c_N c) -> 0 <= G -> Forall (inv_item c clk) l -> 0 <= Phi c G now l.
+Lemma Phi_nonneg c G nn now clk l : params_ok (c_T c) (c_N c) -> 0 <= G -> 0 <= nn -> Forall (inv2 c clk) l -> 0 <= Phi c G nn now l.
 Proof.
-  intros HP HG H. induction H as [|x r Hx Hr IH]; cbn [Phi]; [lia|]. pose proof (phi_nonneg c G now x clk HP HG Hx). lia.
+  intros HP HG Hn H. induction H as [|x r Hx Hr IH]; cbn [Phi]; [lia|]. pose proof (phi_nonneg c G nn now x clk HP HG Hn Hx). lia.
 Qed.
 
-Lemma redirects_nonneg es : 0 <= redirects es.
-Proof. induction es as [|[| |i t [| | |]] r IH]; cbn [redirects]; lia. Qed.
-
-(** the heart of (1): while the timer is armed, potential + elapsed time never exceeds the initial potential plus what the
-    alternate-server answers added *)
+(** the heart of (1): while the timer is armed, potential + elapsed time never exceeds the potential at the start - whatever the
+    answers, alternate-server ones included *)
 Lemma run_phi c G : params_ok (c_T c) (c_N c) -> 0 <= G -> forall es s clk,
-  Forall (inv_item c clk) (ds_items s) -> ds_timer s = true -> driven G clk es ->
+  Forall (inv2 c clk) (ds_items s) -> ds_timer s = true -> driven G clk es ->
+  let nn := Z.of_nat (length (ds_items s)) in
   let s' := fst (run c s es) in
   completed s' \/
-  (ds_timer s' = true /\ Forall (inv_item c (last_tick clk es)) (ds_items s') /\
-   Phi c G (last_tick clk es) (ds_items s') + (last_tick clk es - clk) <=
-     Phi c G clk (ds_items s) + redirects es * (Z.of_nat (length (ds_items s)) * TX c G)).
+  (ds_timer s' = true /\ Forall (inv2 c (last_tick clk es)) (ds_items s') /\
+   Phi c G nn (last_tick clk es) (ds_items s') + (last_tick clk es - clk) <= Phi c G nn clk (ds_items s)).
 Proof.
-  intros HP HG. destruct (round_nonneg c G HP HG) as [R1 R2]. induction es as [|e r IH]; intros s clk Hl Ht Hd; cbn zeta.
-  - right. cbn [run fst last_tick redirects]. repeat split; auto. lia.
+  intros HP HG. induction es as [|e r IH]; intros s clk Hl Ht Hd; cbn zeta.
+  - right. cbn [run fst last_tick]. repeat split; auto. lia.
   - rewrite run_cons. cbn [fst]. destruct e as [now fails|now fails|i t k]; cbn [driven] in Hd; [destruct Hd| |].
     + (* the timer fires *)
-      destruct Hd as (Hn & Hgap & Hd). cbn [step last_tick redirects]. rewrite Ht.
+      destruct Hd as (Hn & Hgap & Hd). cbn [step last_tick]. rewrite Ht.
       destruct (do_tick_unfold c now fails s) as (l' & nd & st & o & El & ->).
       pose proof (tick_loop_nd_nonneg_aux c now fails _ _ _ _ _ _ _ El) as Hnd.
       destruct (tick_loop_struct c now fails _ _ _ _ _ _ _ (inv_sok c clk _ Hl) El) as (_ & Hlen & _).
-      destruct (tick_loop_phi c G clk now fails HP HG Hn ltac:(lia) ltac:(lia) _ _ _ _ _ _ _ Hl El) as (P1 & P2 & P3).
+      destruct (tick_loop_phi c G (Z.of_nat (length (ds_items s))) clk now fails HP HG ltac:(lia) Hn ltac:(lia) ltac:(lia) _ _ _ _ _ _ _ Hl El) as (P1 & P2 & P3).
       destruct (nd =? 0) eqn:End; cbn [fst snd].
       * left. erewrite run_completed; [| |exact Hd]; cbn [set_timer ds_items ds_gathering ds_timer]; repeat split; reflexivity.
       * specialize (P3 ltac:(lia)).
@@ -787,36 +844,35 @@ Proof.
         split; [exact I1|]. split; [exact I2|]. cbn [s1 ds_items] in I3. rewrite Hlen in I3. lia.
     + (* an answer arrives *)
       cbn [step last_tick]. pose proof (answer_struct c i t k s (inv_sok c clk _ Hl)) as (_ & A2 & A3 & _). cbn zeta in *.
-      pose proof (answer_phi c G clk i t k s HP HG Hl) as (B1 & B2). cbn zeta in *.
+      pose proof (answer_phi c G (Z.of_nat (length (ds_items s))) clk i t k s HP HG ltac:(lia) Hl) as (B1 & B2). cbn zeta in *.
       set (s1 := fst (answer c i t k s)) in *.
       destruct (IH s1 clk B1 ltac:(congruence) Hd) as [Hc|(I1 & I2 & I3)]; [left; exact Hc|]. right. cbn zeta in *.
-      split; [exact I1|]. split; [exact I2|]. rewrite A2 in I3.
-      assert (Hr : redirects (EAnswer i t k :: r) = (if is_alt k then 1 else 0) + redirects r) by (destruct k; cbn [redirects is_alt]; lia).
-      rewrite Hr. destruct (is_alt k); lia.
+      split; [exact I1|]. split; [exact I2|]. rewrite A2 in I3. lia.
 Qed.
 
 (* ------------------------------------------------------------------ (1) the theorem *)
-(** T(n, R): n items, R alternate-server answers; microseconds *)
-Definition bound (c : dcfg) (G n R : Z) : Z := n * ((c_maxauth c + 1) * round c G) + R * (n * TX c G).
+(** T(n), microseconds: every item may run (A + 1) rounds of its own (first request + A re-authentications) and follow MR redirections,
+    each of which can re-queue every item of the list for one more transaction *)
+Definition bound (c : dcfg) (G n : Z) : Z := n * ((c_maxauth c + 1) * round c G + c_maxredir c * (n * TX c G)).
 
 Definition fresh (it : item) : Prop := exists ty g sv, it = fresh_item ty g sv.
 
-Lemma inv_fresh c clk it : 0 <= c_maxauth c -> fresh it -> inv_item c clk it.
-Proof. intros HA (ty & g & sv & ->). split; [apply sok_fresh|]. split; [cbn; lia|]. cbn. intros; discriminate. Qed.
+Lemma inv_fresh c clk it : 0 <= c_maxauth c -> 0 <= c_maxredir c -> fresh it -> inv2 c clk it.
+Proof. intros HA HR (ty & g & sv & ->). split; [|cbn; lia]. split; [apply sok_fresh|]. split; [cbn; lia|]. cbn. intros; discriminate. Qed.
 
-Lemma Phi_fresh c G clk l : Forall fresh l -> Phi c G clk l = Z.of_nat (length l) * ((c_maxauth c + 1) * round c G).
+Lemma Phi_fresh c G nn clk l : Forall fresh l -> Phi c G nn clk l = Z.of_nat (length l) * ((c_maxauth c + 1) * round c G + c_maxredir c * (nn * TX c G)).
 Proof.
   intros H. induction H as [|x r (ty & g & sv & ->) Hr IH]; cbn [Phi length]; [lia|]. rewrite IH.
-  unfold phi. cbn [fresh_item d_done d_pending d_auth negb]. lia.
+  unfold phi, rterm, phi0. cbn [fresh_item d_done d_pending d_auth d_redir negb]. lia.
 Qed.
 
 Theorem terminates c G l0 t0 fails es :
-  params_ok (c_T c) (c_N c) -> 0 <= c_maxauth c -> 0 <= G -> wf_now t0 -> Forall fresh l0 -> driven G (us t0) es ->
-  bound c G (Z.of_nat (length l0)) (redirects es) < last_tick (us t0) es - us t0 ->
+  params_ok (c_T c) (c_N c) -> 0 <= c_maxauth c -> 0 <= c_maxredir c -> 0 <= G -> wf_now t0 -> Forall fresh l0 -> driven G (us t0) es ->
+  bound c G (Z.of_nat (length l0)) < last_tick (us t0) es - us t0 ->
   completed (fst (run c (init l0) (EStart t0 fails :: es))) /\ n_gd (snd (run c (init l0) (EStart t0 fails :: es))) = 1.
 Proof.
-  intros HP HA HG Hn Hf Hd Hb.
-  assert (Hinv : Forall (inv_item c (us t0)) l0) by (eapply Forall_impl; [|exact Hf]; intros x Hx; apply inv_fresh; auto).
+  intros HP HA HR HG Hn Hf Hd Hb.
+  assert (Hinv : Forall (inv2 c (us t0)) l0) by (eapply Forall_impl; [|exact Hf]; intros x Hx; apply inv_fresh; auto).
   assert (Hc : completed (fst (run c (init l0) (EStart t0 fails :: es)))).
   { rewrite run_cons. cbn [fst step init ds_unsched ds_timer negb].
     destruct (0 <? Z.of_nat (length l0)) eqn:E0.
@@ -824,12 +880,13 @@ Proof.
       destruct (do_tick_unfold c t0 fails (init l0)) as (l' & nd & st & o & El & ->). cbn [init ds_items ds_nid ds_unsched ds_gathering ds_timer] in *.
       pose proof (tick_loop_nd_nonneg_aux c t0 fails _ _ _ _ _ _ _ El) as Hnd.
       destruct (tick_loop_struct c t0 fails _ _ _ _ _ _ _ (inv_sok c _ _ Hinv) El) as (_ & Hlen & _).
-      destruct (tick_loop_phi c G (us t0) t0 fails HP HG Hn ltac:(lia) ltac:(lia) _ _ _ _ _ _ _ Hinv El) as (P1 & P2 & _).
+      destruct (tick_loop_phi c G (Z.of_nat (length l0)) (us t0) t0 fails HP HG ltac:(lia) Hn ltac:(lia) ltac:(lia) _ _ _ _ _ _ _ Hinv El) as (P1 & P2 & _).
       destruct (nd =? 0) eqn:End; cbn [fst snd set_timer ds_items ds_unsched ds_nid ds_gathering ds_timer].
       + erewrite run_completed; [| |exact Hd]; repeat split; reflexivity.
       + match goal with |- completed (fst (run c ?s1 es)) => destruct (run_phi c G HP HG es s1 (us t0) P1 eq_refl Hd) as [Hc|(I1 & I2 & I3)] end; [exact Hc|exfalso].
-        cbn zeta in *. cbn [set_timer ds_items] in *. pose proof (Phi_nonneg c G (last_tick (us t0) es) _ _ HP HG I2) as NN.
-        rewrite (Phi_fresh c G (us t0) l0 Hf) in P2. unfold bound in Hb. rewrite Hlen in I3. lia.
+        cbn zeta in *. cbn [set_timer ds_items] in *. rewrite Hlen in I3.
+        pose proof (Phi_nonneg c G (Z.of_nat (length l0)) (last_tick (us t0) es) _ _ HP HG ltac:(lia) I2) as NN.
+        rewrite (Phi_fresh c G _ (us t0) l0 Hf) in P2. unfold bound in Hb. lia.
     - assert (l0 = []) by (destruct l0; [reflexivity|cbn [length] in E0; lia]). subst l0.
       erewrite run_completed; [| |exact Hd]; repeat split; reflexivity. }
   split; [exact Hc|].
@@ -837,7 +894,7 @@ Proof.
 Qed.
 
 (** the same in ticks: when the timer also never fires EARLIER than [Ta] after the previous firing (a GLib timeout source of
-    interval Ta), more than T(n,R)/Ta firings cannot happen without completion *)
+    interval Ta), more than T(n)/Ta firings cannot happen without completion *)
 Fixpoint driven2 (Ta G clk : Z) (es : list event) : Prop :=
   match es with
   | [] => True
@@ -856,12 +913,22 @@ Proof.
 Qed.
 
 Theorem terminates_ticks c Ta G l0 t0 fails es :
-  params_ok (c_T c) (c_N c) -> 0 <= c_maxauth c -> 0 <= Ta -> 0 <= G -> wf_now t0 -> Forall fresh l0 -> driven2 Ta G (us t0) es ->
-  bound c G (Z.of_nat (length l0)) (redirects es) < Ta * ticks es ->
+  params_ok (c_T c) (c_N c) -> 0 <= c_maxauth c -> 0 <= c_maxredir c -> 0 <= Ta -> 0 <= G -> wf_now t0 -> Forall fresh l0 -> driven2 Ta G (us t0) es ->
+  bound c G (Z.of_nat (length l0)) < Ta * ticks es ->
   completed (fst (run c (init l0) (EStart t0 fails :: es))) /\ n_gd (snd (run c (init l0) (EStart t0 fails :: es))) = 1.
 Proof.
-  intros HP HA HT HG Hn Hf Hd Hb. destruct (driven2_driven Ta G HT es (us t0) Hd) as [D1 D2].
+  intros HP HA HR HT HG Hn Hf Hd Hb. destruct (driven2_driven Ta G HT es (us t0) Hd) as [D1 D2].
   apply (terminates c G l0 t0 fails es); auto. lia.
+Qed.
+
+Corollary open_only_within_bound c G l0 t0 fails es :
+  params_ok (c_T c) (c_N c) -> 0 <= c_maxauth c -> 0 <= c_maxredir c -> 0 <= G -> wf_now t0 -> Forall fresh l0 -> driven G (us t0) es ->
+  ds_timer (fst (run c (init l0) (EStart t0 fails :: es))) = true \/ ds_gathering (fst (run c (init l0) (EStart t0 fails :: es))) = true ->
+  last_tick (us t0) es - us t0 <= bound c G (Z.of_nat (length l0)).
+Proof.
+  intros HP HA HR HG Hn Hf Hd Ho.
+  destruct (Z_le_gt_dec (last_tick (us t0) es - us t0) (bound c G (Z.of_nat (length l0)))) as [H|H]; [exact H|exfalso].
+  destruct (terminates c G l0 t0 fails es HP HA HR HG Hn Hf Hd ltac:(lia)) as ((_ & C2 & C3) & _). destruct Ho; congruence.
 Qed.
 
 (** the bound spelled out for the default limit of 3 transmissions: one transaction = 4 x RTO + 3 x (1 ms + G) *)
@@ -871,8 +938,8 @@ Proof.
   destruct (wait_examples (c_T c) HT) as (W1 & W2 & W3 & _). change (0 + 1) with 1. change (1 + 1) with 2. change (2 + 1) with 3. rewrite W1, W2, W3. lia.
 Qed.
 
-Lemma bound_three c G n R : c_N c = 3 -> 1 <= c_T c ->
-  bound c G n R = n * ((c_maxauth c + 1) * (G + 4000 * c_T c + 3 * (1000 + G))) + R * (n * (4000 * c_T c + 3 * (1000 + G))).
+Lemma bound_three c G n : c_N c = 3 -> 1 <= c_T c ->
+  bound c G n = n * ((c_maxauth c + 1) * (G + 4000 * c_T c + 3 * (1000 + G)) + c_maxredir c * (n * (4000 * c_T c + 3 * (1000 + G)))).
 Proof. intros HN HT. unfold bound, round. rewrite (TX_three c G HN HT). lia. Qed.
 
 (* ------------------------------------------------------------------ completion only when every item is done *)
@@ -889,10 +956,10 @@ Qed.
 Lemma init_sok l : Forall fresh l -> Forall sok (ds_items (init l)).
 Proof. intros H. cbn. eapply Forall_impl; [|exact H]. intros x (ty & g & sv & ->). apply sok_fresh. Qed.
 
-(* ------------------------------------------------------------------ the unrestricted statement is false *)
+(* ------------------------------------------------------------------ concrete runs *)
 (** one server-reflexive discovery; the server (and every server it names) answers each Binding request at once with
     300 + ALTERNATE-SERVER; the timer fires every 20 ms.  [k] rounds. *)
-Definition cfg_default : dcfg := {| c_T := 500; c_N := 3; c_maxauth := 5 |}.
+Definition cfg_default : dcfg := {| c_T := 500; c_N := 3; c_maxauth := 5; c_maxredir := 5 |}.
 Definition at_ms (ms : Z) : tv := {| sec := 100 + ms / 1000; usec := (ms mod 1000) * 1000 |}.
 (** an adaptive adversary: before every timer firing it looks at the state and injects the answers [pol] chooses;
     firings every 20 ms ([k] of them) *)
@@ -921,24 +988,20 @@ Proof.
   split; [unfold wf_now; lia|]. split; [lia|]. apply IH; exact H5.
 Qed.
 
-(** one server-reflexive discovery; the server (and every server it names) answers each Binding request at once with
-    300 + ALTERNATE-SERVER.  After 1000 timer periods (20 s; the bound without the redirect term is 12.498 s) gathering is still
-    open, 1001 requests have been sent and nothing was announced: the termination statement without a hypothesis on the number
-    of alternate-server answers is FALSE on the faithful model (and on the real code: props/c20_discovery.py replays this run) *)
+(** regression of the endless-redirect defect (fixed by /repo 1878027): one server-reflexive discovery whose server (and every server it
+    names) answers each Binding request at once with 300 + ALTERNATE-SERVER.  Five redirections are followed, the sixth answer ends
+    the item: 6 requests, completion announced once, by the timer firing at 120 ms *)
 Definition redirect_es (k : nat) : list event := adversary cfg_default [fresh_item Srflx 1 1] (answer_cur 0 (KAlternate 2)) k.
 
-Theorem terminates_refuted_by_endless_redirect :
-  let es := redirect_es 1000 in
-  let r := run cfg_default (init [fresh_item Srflx 1 1]) (EStart (at_ms 0) [] :: es) in
-  driven 20000 (us (at_ms 0)) es /\
-  bound cfg_default 20000 1 0 < last_tick (us (at_ms 0)) es - us (at_ms 0) /\
-  ~ completed (fst r) /\ ds_gathering (fst r) = true /\ ds_timer (fst r) = true /\ n_gd (snd r) = 0 /\ n_send 0 (snd r) = 1001 /\ redirects es = 1000.
+Lemma example_endless_redirect_server :
+  (let r := run cfg_default (init [fresh_item Srflx 1 1]) (EStart (at_ms 0) [] :: redirect_es 5) in ds_gathering (fst r) = true /\ n_gd (snd r) = 0) /\
+  (let r := run cfg_default (init [fresh_item Srflx 1 1]) (EStart (at_ms 0) [] :: redirect_es 6) in completed (fst r) /\ n_gd (snd r) = 1 /\ n_send 0 (snd r) = 6 /\ n_cand 0 (snd r) = 0) /\
+  (let r := run cfg_default (init [fresh_item Srflx 1 1]) (EStart (at_ms 0) [] :: redirect_es 1200) in
+   driven 20000 (us (at_ms 0)) (redirect_es 1200) /\ bound cfg_default 20000 1 = 22813000 /\ last_tick (us (at_ms 0)) (redirect_es 1200) - us (at_ms 0) = 24000000 /\
+   completed (fst r) /\ n_gd (snd r) = 1 /\ n_send 0 (snd r) = 6).
 Proof.
-  cbn zeta. split; [apply drivenb_ok; vm_compute; reflexivity|].
-  split; [vm_compute; reflexivity|].
-  assert (H : ds_gathering (fst (run cfg_default (init [fresh_item Srflx 1 1]) (EStart (at_ms 0) [] :: redirect_es 1000))) = true) by (vm_compute; reflexivity).
-  split; [intros (_ & C & _); rewrite H in C; discriminate|].
-  split; [exact H|]. repeat split; vm_compute; reflexivity.
+  cbn zeta. split; [split; vm_compute; reflexivity|]. split; [repeat split; vm_compute; reflexivity|].
+  split; [apply drivenb_ok; vm_compute; reflexivity|]. repeat split; vm_compute; reflexivity.
 Qed.
 
 (* ------------------------------------------------------------------ the hypotheses of (1) are met by concrete runs *)
@@ -947,12 +1010,12 @@ Definition l3 : list item := [fresh_item Srflx 1 1; fresh_item Relay 1 2; fresh_
     answer for a transaction id never used and a garbage-class answer *)
 Definition pol_hostile (s : dstate) : list event :=
   answer_cur 1 (KError 438 1) s ++ answer_cur 1 (KError 438 1) s ++ answer_cur 2 (KError 438 2) s ++ [EAnswer 0 (-7) KSuccess; EAnswer 0 (-7) KInvalid].
-Definition es_hostile := adversary cfg_default l3 pol_hostile 1900.
+Definition es_hostile := adversary cfg_default l3 pol_hostile 6600.
 
 Lemma example_hostile :
   let r := run cfg_default (init l3) (EStart (at_ms 0) [] :: es_hostile) in
-  Forall fresh l3 /\ driven 20000 (us (at_ms 0)) es_hostile /\ redirects es_hostile = 0 /\
-  bound cfg_default 20000 3 0 = 37494000 /\ last_tick (us (at_ms 0)) es_hostile - us (at_ms 0) = 38000000 /\
+  Forall fresh l3 /\ driven 20000 (us (at_ms 0)) es_hostile /\
+  bound cfg_default 20000 3 = 130329000 /\ last_tick (us (at_ms 0)) es_hostile - us (at_ms 0) = 132000000 /\
   completed (fst r) /\ n_gd (snd r) = 1 /\ n_cand 0 (snd r) = 0 /\ n_cand 1 (snd r) = 0 /\ n_cand 2 (snd r) = 0 /\
   n_send 0 (snd r) = 3 /\ n_send 1 (snd r) = 6 /\ n_send 2 (snd r) = 6.
 Proof.
@@ -970,12 +1033,12 @@ Definition pol_chain (s : dstate) : list event :=
   match nth_error (ds_items s) 1 with
   | Some it => if d_realm it =? 0 then answer_cur 1 (KError 401 1) s else answer_cur 1 KSuccess s
   | None => [] end.
-Definition es_chain := adversary cfg_default l2 pol_chain 1900.
+Definition es_chain := adversary cfg_default l2 pol_chain 3400.
 
 Lemma example_chain :
   let r := run cfg_default (init l2) (EStart (at_ms 0) [] :: es_chain) in
-  Forall fresh l2 /\ driven 20000 (us (at_ms 0)) es_chain /\ redirects es_chain = 3 /\
-  bound cfg_default 20000 2 3 = 37374000 /\ last_tick (us (at_ms 0)) es_chain - us (at_ms 0) = 38000000 /\
+  Forall fresh l2 /\ driven 20000 (us (at_ms 0)) es_chain /\
+  bound cfg_default 20000 2 = 66256000 /\ last_tick (us (at_ms 0)) es_chain - us (at_ms 0) = 68000000 /\
   completed (fst r) /\ n_gd (snd r) = 1 /\ n_cand 0 (snd r) = 1 /\ n_cand 1 (snd r) = 1 /\ n_send 0 (snd r) = 4 /\ n_send 1 (snd r) = 2.
 Proof.
   cbn zeta. split; [repeat constructor; eexists _, _, _; reflexivity|]. split; [apply drivenb_ok; vm_compute; reflexivity|].
@@ -1019,14 +1082,74 @@ Proof.
   intros H. split; [apply count_nonneg|]. pose proof (candidates_at_most_one c i es (init l0) (init_sok l0 H)). pose proof (cb_range (init l0) i). lia.
 Qed.
 
-(** the same, read the other way: as long as the timer source exists or a stream is still gathering, no more than T(n,R) have passed
-    between the start and the last timer firing *)
-Corollary open_only_within_bound c G l0 t0 fails es :
-  params_ok (c_T c) (c_N c) -> 0 <= c_maxauth c -> 0 <= G -> wf_now t0 -> Forall fresh l0 -> driven G (us t0) es ->
-  ds_timer (fst (run c (init l0) (EStart t0 fails :: es))) = true \/ ds_gathering (fst (run c (init l0) (EStart t0 fails :: es))) = true ->
-  last_tick (us t0) es - us t0 <= bound c G (Z.of_nat (length l0)) (redirects es).
+
+(* ------------------------------------------------------------------ why the limit is needed: the time grows with it, without end *)
+(** the code as it was before /repo 1878027 is this model with no limit.  With the limit set to k (any k) the endlessly redirecting server
+    keeps the discovery open for k timer periods: the MR term of T(n) is not an artefact, and with the limit removed no bound exists *)
+Definition cfg_limit (k : Z) : dcfg := {| c_T := 500; c_N := 3; c_maxauth := 5; c_maxredir := k |}.
+
+Lemma tick_item_start c now tid it : d_pending it = false -> tick_item c now true tid it = TR (it_start c now tid it) 1 true true true.
+Proof. intros H. unfold tick_item. rewrite H. reflexivity. Qed.
+
+Definition redirecting (j : Z) (s : dstate) : Prop :=
+  exists it, ds_items s = [it] /\ d_type it = Srflx /\ d_pending it = true /\ d_done it = false /\ d_buf it = true /\ d_live it = true /\
+             d_redir it = j /\ ds_timer s = true /\ ds_gathering s = true.
+
+Lemma redirect_round k j now s : j < k -> redirecting j s ->
+  exists t, answer_cur 0 (KAlternate 2) s = [EAnswer 0 t (KAlternate 2)] /\
+            redirecting (j + 1) (fst (step (cfg_limit k) (fst (step (cfg_limit k) s (EAnswer 0 t (KAlternate 2)))) (ETick now []))).
 Proof.
-  intros HP HA HG Hn Hf Hd Ho.
-  destruct (Z_le_gt_dec (last_tick (us t0) es - us t0) (bound c G (Z.of_nat (length l0)) (redirects es))) as [H|H]; [exact H|exfalso].
-  destruct (terminates c G l0 t0 fails es HP HA HG Hn Hf Hd ltac:(lia)) as ((_ & C2 & C3) & _). destruct Ho; congruence.
+  intros Hjk (it & Hi & Hty & Hp & Hd & Hb & Hl & Hr & Ht & Hg). unfold answer_cur. rewrite Hi. cbn [nth_error]. eexists. split; [reflexivity|].
+  cbn [step]. unfold answer. rewrite Hi. cbn [nth_error]. unfold accepts. rewrite Hb, Hl, Z.eqb_refl. cbn [andb]. rewrite Hty.
+  cbn [cfg_limit c_maxredir]. assert (E : (d_redir it <? k) = true) by lia. rewrite E.
+  cbn [fst ds_timer ds_items upd_nth]. rewrite Ht. unfold do_tick. cbn [ds_items ds_nid tick_loop existsb negb].
+  rewrite (tick_item_start (cfg_limit k) now (ds_nid s + Z.of_nat 0) (it_redirect 2 it) eq_refl). unfold TR. cbn [r_paced r_item r_nd r_started r_sent].
+  cbn [Z.eqb fst snd ds_items ds_timer ds_gathering]. change (1 =? 0) with false. cbn [fst snd].
+  eexists. split; [reflexivity|]. cbn [it_start it_redirect mk d_type d_pending d_done d_buf d_live d_redir ds_timer ds_gathering]. repeat split; auto. lia.
+Qed.
+
+Lemma us_at_ms m : 0 <= m -> us (at_ms m) = 100000000 + 1000 * m /\ wf_now (at_ms m).
+Proof. intros H. unfold us, at_ms, wf_now. cbn [sec usec]. lia. Qed.
+
+Lemma run_single c s e : fst (run c s [e]) = fst (step c s e).
+Proof. rewrite run_cons. reflexivity. Qed.
+
+Lemma adapt_redirect K : forall k j s, 0 <= j -> j + Z.of_nat k <= K -> redirecting j s ->
+  let es := adapt (cfg_limit K) (answer_cur 0 (KAlternate 2)) k j s in
+  driven 20000 (us (at_ms (20 * j))) es /\ last_tick (us (at_ms (20 * j))) es = us (at_ms (20 * (j + Z.of_nat k))) /\
+  redirecting (j + Z.of_nat k) (fst (run (cfg_limit K) s es)).
+Proof.
+  induction k as [|k IH]; intros j s Hj HK Hs; cbn zeta.
+  - cbn [adapt driven last_tick run fst]. replace (j + Z.of_nat 0) with j by lia. auto.
+  - cbn [adapt]. destruct (redirect_round K j (at_ms (20 * (j + 1))) s ltac:(lia) Hs) as (t & Ha & Hr). rewrite Ha. cbn [app].
+    rewrite run_single. set (s2 := fst (step (cfg_limit K) (fst (step (cfg_limit K) s (EAnswer 0 t (KAlternate 2)))) (ETick (at_ms (20 * (j + 1))) []))) in *.
+    destruct (IH (j + 1) s2 ltac:(lia) ltac:(lia) Hr) as (I1 & I2 & I3). cbn zeta in *.
+    destruct (us_at_ms (20 * j) ltac:(lia)) as [U1 _]. destruct (us_at_ms (20 * (j + 1)) ltac:(lia)) as [U2 W2].
+    cbn [driven last_tick]. split; [|split].
+    + split; [exact W2|]. split; [lia|exact I1].
+    + rewrite I2. f_equal. f_equal. lia.
+    + rewrite run_cons. cbn [fst]. rewrite run_cons. cbn [fst]. replace (j + Z.of_nat (S k)) with (j + 1 + Z.of_nat k) by lia. exact I3.
+Qed.
+
+Theorem gathering_time_grows_with_redirect_limit : forall k : nat,
+  let c := cfg_limit (Z.of_nat k) in
+  let es := adversary c [fresh_item Srflx 1 1] (answer_cur 0 (KAlternate 2)) k in
+  let r := run c (init [fresh_item Srflx 1 1]) (EStart (at_ms 0) [] :: es) in
+  driven 20000 (us (at_ms 0)) es /\ last_tick (us (at_ms 0)) es - us (at_ms 0) = 20000 * Z.of_nat k /\
+  ds_gathering (fst r) = true /\ ds_timer (fst r) = true /\ n_gd (snd r) = 0.
+Proof.
+  intros k. cbn zeta. unfold adversary.
+  set (s1 := fst (step (cfg_limit (Z.of_nat k)) (init [fresh_item Srflx 1 1]) (EStart (at_ms 0) []))).
+  assert (H1 : redirecting 0 s1). { unfold s1, redirecting. vm_compute. eexists. repeat split; reflexivity. }
+  destruct (adapt_redirect (Z.of_nat k) k 0 s1 ltac:(lia) ltac:(lia) H1) as (A1 & A2 & A3). cbn zeta in *. change (20 * 0) with 0 in *.
+  destruct (us_at_ms 0 ltac:(lia)) as [U0 _]. destruct (us_at_ms (20 * (0 + Z.of_nat k)) ltac:(lia)) as [Uk _].
+  split; [exact A1|]. split; [rewrite A2; lia|].
+  set (es := adapt (cfg_limit (Z.of_nat k)) (answer_cur 0 (KAlternate 2)) k 0 s1) in *.
+  assert (Hg : ds_gathering (fst (run (cfg_limit (Z.of_nat k)) (init [fresh_item Srflx 1 1]) (EStart (at_ms 0) [] :: es))) = true /\
+               ds_timer (fst (run (cfg_limit (Z.of_nat k)) (init [fresh_item Srflx 1 1]) (EStart (at_ms 0) [] :: es))) = true).
+  { rewrite run_cons. cbn [fst]. fold s1. destruct A3 as (it & _ & _ & _ & _ & _ & _ & _ & T & G). auto. }
+  destruct Hg as [Hg Ht]. split; [exact Hg|]. split; [exact Ht|].
+  assert (Hf : Forall fresh [fresh_item Srflx 1 1]) by (repeat constructor; eexists _, _, _; reflexivity).
+  destruct (announced_at_most_once (cfg_limit (Z.of_nat k)) _ (EStart (at_ms 0) [] :: es) Hf) as [E _].
+  rewrite E, Hg. reflexivity.
 Qed.
